@@ -40,7 +40,7 @@ structure Mon where
   expResolvedAt : List (Nat × Nat) := [] -- expect() calls: the time their future was resolved with a match
   expNested : List Nat := []            -- expect() calls resolved by an event whose activation is nested inside that of an earlier match
   lateAccepted : List (BId × EId) := []  -- dispatches accepted by a bus whose run loop had already exited (stopped / cancelled)
-  redone : List EId := []               -- events that were accepted by a bus again after their completion had been signalled
+  redone : List EId := []               -- events accepted by a bus again: after their completion had been signalled, or by a bus that had them before
   selAt : List ((BId × EId) × List HId) := []   -- per begun activation: the ordinary handlers registered for a matching
                                         -- pattern at that moment (what "no handler is skipped" is about)
   scanning : Option IId := none         -- the instance whose await has just begun, or just finished an inline activation: it is
@@ -191,7 +191,10 @@ def stuckSigs (w : World) (m : Mon) (e : EId) : List String :=
   (hangSigs w m e).filter (· != "F5") ++
   -- an abandoned activation is *covered* when, after it was abandoned, a handler of one of its event's ancestors recorded
   -- a timeout: that handler's cleanup cancels the abandoned event's pending results (C10); otherwise nothing ever does
-  (if (m.aborted.zipIdx).any (fun (d, k) => desc w d.2 e && !m.timedOut.any (fun (t, n) => k < n && childReach w (w.ne + 1) t d.2))
+  -- (the cleanup of a timed-out handler of event t cancels the pending results of t's children and their descendants,
+  --  not those of t itself)
+  (if (m.aborted.zipIdx).any (fun (d, k) => desc w d.2 e &&
+        !m.timedOut.any (fun (t, n) => k < n && (w.ev t).children.any fun c => childReach w (w.ne + 1) c d.2))
    then ["F5"] else [])
 
 def busHangSigs (w : World) (m : Mon) (b : BId) : List String :=
@@ -235,8 +238,11 @@ def Mon.step (m : Mon) (w : World) (l : Label) (w' : World) : Mon × List Vio :=
       v "C10" "overrun" [] s!"instance {i} acts at {w.now}, deadline {(w.inst i).deadline}" else []
   let (m, vs) : Mon × List Vio := match l with
   | .dispatch p b e res =>
+    -- (redone: the event had completed already, or this bus had accepted it before - while it waits in the queue again, the
+    --  completion of its children can signal it complete)
+    let m := if res == .ok && ((w.ev e).signal || m.accepted.contains (b, e)) && !m.redone.contains e then
+      { m with redone := m.redone ++ [e] } else m
     let m := if res == .ok then { m with accepted := m.accepted ++ [(b, e)] } else m
-    let m := if res == .ok && (w.ev e).signal && !m.redone.contains e then { m with redone := m.redone ++ [e] } else m
     let m := if res == .ok && (w.bus b).rl == .exited then { m with lateAccepted := m.lateAccepted ++ [(b, e)] } else m
     let isFwd := match p with | .inst i => (w.inst i).kind.isForward | _ => false
     let m := if isFwd && res != .ok then { m with fwdRejected := true } else m
